@@ -29,7 +29,7 @@ pub fn alphabet(idx: usize) -> Vec<u8> {
         // common letters + rare bytes (prefilter rank heuristics)
         4 => b"etaoin QZ~qj".to_vec(),
         // UTF-8 pieces: e-acute, euro sign, emoji and their fragments
-        5 => vec![0xc3, 0xa9, 0xe2, 0x82, 0xac, 0xf0, 0x9f, 0x98, 0x80, b'a', b'b'],
+        5 => vec![0xc3, 0xa9, 0xe2, 0x82, 0xac, 0xf0, 0x9f, 0x98, 0x80, b'a', b'b', 0xf4, 0x8f, 0xbf, 0xc2, 0xdf, 0xe0, 0xa0, 0xef, 0x90, 0x7f],
         6 => (0..=255u8).collect(),
         // letters and bytes >= 0x80 whose low bits look like letters
         _ => vec![b'a', b'A', b'c', b'C', 0xc1, 0xe1, 0xc3, 0xe3, 0x41 | 0x80, b'z', b'Z', 0x5b, 0x7b],
@@ -83,7 +83,11 @@ pub enum PatList {
     /// a^k b families, nested suffixes (deep failure chains)
     Adversarial { kind: u8, k: u8, n: u8 },
     /// one trie node with many children: prefix + distinct byte + tail
-    Fanout { prefix: Vec<u8>, n: u8, start: u8, tails: Vec<u8> },
+    Fanout { prefix: Vec<u8>, n: u16, start: u8, tails: Vec<u8> },
+    /// 17..64 patterns of length >= 2 over many first bytes, with duplicates
+    /// (selects the packed prefilter through the 'no start/rare prefilter'
+    /// fallback; exercises ordering of equal patterns in larger sets)
+    MidPacked { raws: Vec<Vec<u8>>, dups: Vec<(u16, u16)> },
 }
 
 #[derive(Clone, Copy, Debug)]
@@ -190,9 +194,14 @@ fn shaped_list() -> BoxedStrategy<PatList> {
             vec(
                 (
                     any::<u8>(),
+                    // the rare byte's offset: mostly small, sometimes just
+                    // below, at and beyond the 255 limit of the offset table
+                    // (patterns of >= 256 bytes must disable the prefilter)
                     prop_oneof![
-                        12 => vec(any::<u8>(), 0..=6),
-                        1 => vec(any::<u8>(), 240..=254),
+                        24 => vec(any::<u8>(), 0..=6),
+                        2 => vec(any::<u8>(), 240..=254),
+                        3 => vec(any::<u8>(), 255..=258),
+                        1 => vec(any::<u8>(), 259..=330),
                     ],
                     vec(any::<u8>(), 0..=5),
                     any::<u8>()
@@ -202,6 +211,11 @@ fn shaped_list() -> BoxedStrategy<PatList> {
         )
             .prop_map(|(rares, items)| PatList::RareBytes { rares, items }),
         4 => vec(vec(any::<u8>(), 2..=8), 3..=16).prop_map(PatList::Packedish),
+        3 => (vec(vec(any::<u8>(), 2..=6), 14..=50), vec((any::<u16>(), any::<u16>()), 1..=12))
+            .prop_map(|(raws, dups)| PatList::MidPacked { raws, dups }),
+        // around the packed searcher's 128-pattern limit and beyond
+        1 => (vec(vec(any::<u8>(), 2..=5), 120..=200), vec((any::<u16>(), any::<u16>()), 0..=4))
+            .prop_map(|(raws, dups)| PatList::MidPacked { raws, dups }),
     ]
     .boxed()
 }
@@ -215,7 +229,14 @@ fn adversarial_list() -> BoxedStrategy<PatList> {
 fn fanout_list() -> BoxedStrategy<PatList> {
     (
         vec(any::<u8>(), 0..=2),
-        prop_oneof![3 => 2u8..=12, 2 => 13u8..=127, 2 => 128u8..=255],
+        // boundary values of the contiguous NFA's sparse/dense encodings
+        prop_oneof![
+            3 => 2u16..=12,
+            2 => 13u16..=125,
+            4 => 126u16..=129,
+            2 => 130u16..=252,
+            4 => 253u16..=256,
+        ],
         any::<u8>(),
         vec(any::<u8>(), 0..=3),
     )
@@ -379,6 +400,18 @@ pub fn realize_patterns(list: &PatList, alpha: &[u8]) -> Vec<Vec<u8>> {
             let full = alphabet(if alpha.len() < 8 { ALPHA_TEXT } else { ALPHA_FULL });
             let a: &[u8] = if alpha.len() >= 8 { alpha } else { &full };
             raws.iter().map(|r| map_bytes(a, r)).collect()
+        }
+        PatList::MidPacked { raws, dups } => {
+            let full = alphabet(ALPHA_FULL);
+            let text = alphabet(ALPHA_TEXT);
+            let a: &[u8] = if alpha.len() >= 8 { alpha } else if raws.len() % 2 == 0 { &full } else { &text };
+            let mut out: Vec<Vec<u8>> = raws.iter().map(|r| map_bytes(a, r)).collect();
+            for (from, at) in dups {
+                let src = out[idx(*from, out.len())].clone();
+                let pos = idx(*at, out.len() + 1);
+                out.insert(pos, src);
+            }
+            out
         }
         PatList::Fanout { prefix, n, start, tails } => {
             let prefix = map_bytes(alpha, prefix);
@@ -719,6 +752,7 @@ pub fn search_case(o: SearchOpts) -> BoxedStrategy<Case> {
                 PatList::Packedish(_) => "packedish",
                 PatList::Adversarial { .. } => "adversarial",
                 PatList::Fanout { .. } => "fanout",
+                PatList::MidPacked { .. } => "midpacked",
             };
             Case {
                 prop: prop.to_string(),
@@ -732,4 +766,31 @@ pub fn search_case(o: SearchOpts) -> BoxedStrategy<Case> {
             }
         })
         .boxed()
+}
+
+/// A stream longer than the default 64 KiB roll buffer with a pattern placed
+/// so that it straddles the first refill boundary (offset 65536), for
+/// exercising the roll path at the real default capacity.
+pub fn big_stream(patterns: &[Vec<u8>], which: u16, back: u16, fill: u8, tail: u16) -> Vec<u8> {
+    let n = patterns.len().max(1);
+    let empty = Vec::new();
+    let p = patterns.get(idx(which, n)).unwrap_or(&empty);
+    let mut f = fill;
+    for d in 0..=255u8 {
+        let c = fill.wrapping_add(d);
+        if patterns.iter().all(|q| q.first() != Some(&c)) {
+            f = c;
+            break;
+        }
+    }
+    let back = if p.len() >= 2 { 1 + idx(back, p.len() - 1) } else { 0 };
+    let mut h = vec![f; 65536 - back];
+    h.extend_from_slice(p);
+    h.extend(std::iter::repeat(f).take(tail as usize % 3000));
+    h.extend_from_slice(p);
+    if let Some(q) = patterns.get(idx(which.rotate_left(5), n)) {
+        h.extend_from_slice(q);
+    }
+    h.push(f);
+    h
 }
